@@ -64,7 +64,7 @@ func epsSM2() []*epT {
 				x.g("sm2.VerifyASN1", func() { ok = sm2.VerifyASN1(&kr.SM2EE().PublicKey, hash, in) })
 				return
 			}},
-		{name: "sm2.VerifyASN1WithSM2", small: true, fast: true, der: true,
+		{name: "sm2.VerifyASN1WithSM2", small: true, der: true,
 			seeds: []seedT{sigSeedSM2("sm2sig-withuid")},
 			call: func(x *cx, in []byte) (ok bool) {
 				x.g("sm2.VerifyASN1WithSM2", func() { ok = sm2.VerifyASN1WithSM2(&kr.SM2EE().PublicKey, sm2UID, msgShort, in) })
@@ -91,7 +91,7 @@ func epsSM2() []*epT {
 				x.g("sm2.Decrypt", func() { _, err := sm2.Decrypt(kr.SM2EE(), in); ok = err == nil })
 				return
 			}},
-		{name: "sm2.PrivateKey.Decrypt[C1C2C3]", small: true, fast: true,
+		{name: "sm2.PrivateKey.Decrypt[C1C2C3]", small: true,
 			seeds: []seedT{plainC1C2C3},
 			call: func(x *cx, in []byte) (ok bool) {
 				x.g("sm2.PrivateKey.Decrypt[C1C2C3]", func() {
@@ -100,7 +100,7 @@ func epsSM2() []*epT {
 				})
 				return
 			}},
-		{name: "sm2.PrivateKey.Decrypt[ASN1-opts]", small: true, fast: true, der: true,
+		{name: "sm2.PrivateKey.Decrypt[ASN1-opts]", small: true, der: true,
 			seeds: []seedT{ctASN1},
 			call: func(x *cx, in []byte) (ok bool) {
 				x.g("sm2.PrivateKey.Decrypt[ASN1-opts]", func() {
@@ -115,7 +115,7 @@ func epsSM2() []*epT {
 				x.g("sm2.Decrypt[NIST-P256-key]", func() { _, err := sm2.Decrypt(kr.NISTasSM2(), in); ok = err == nil })
 				return
 			}},
-		{name: "sm2.PrivateKey.Decrypt[NIST-P256-key,C1C2C3]", small: true, fast: true,
+		{name: "sm2.PrivateKey.Decrypt[NIST-P256-key,C1C2C3]", small: true,
 			seeds: []seedT{nistC1C2C3},
 			call: func(x *cx, in []byte) (ok bool) {
 				x.g("sm2.PrivateKey.Decrypt[NIST-P256-key,C1C2C3]", func() {
@@ -124,7 +124,7 @@ func epsSM2() []*epT {
 				})
 				return
 			}},
-		{name: "sm2.PrivateKey.Decrypt[NIST-P256-key,ASN1-opts]", small: true, fast: true, der: true,
+		{name: "sm2.PrivateKey.Decrypt[NIST-P256-key,ASN1-opts]", small: true, der: true,
 			seeds: []seedT{nistASN1},
 			call: func(x *cx, in []byte) (ok bool) {
 				x.g("sm2.PrivateKey.Decrypt[NIST-P256-key,ASN1-opts]", func() {
